@@ -195,7 +195,7 @@ contract(LAN + "_LanProtocol._flush",
 contract(LAN + "_LanProtocol.write",
          params={"self": "sub:" + LAN + "_LanProtocol", "data": "bytes"},
          requires=["self._transport is not None"],
-         raises={LAN + "ProtocolError": {"post": {"nothing_written": "len(events('tx')) == 0"}}},
+         raises={LAN + "ProtocolError": {"post": {"nothing_written": "len(events('tx')) == 0"}, "emits": {"io": "'tx_refused'"}}},
          emits={"tx": "data", "tx_on": "self._transport", "io": "'tx'"},
          ensures={"written_once": "len(events('tx')) == 1 and events('tx')[0] == data"})
 
@@ -203,7 +203,7 @@ contract(V3 + ".write",
          params={"self": "obj:" + V3, "data": "bytes", "packet_type": "enum:" + V3 + ".PacketType"},
          requires=["self._transport is not None", "0 <= self._packet_id <= 0xFFF", "len(data) <= 65000"],
          modifies=["self._packet_id"],
-         raises={LAN + "ProtocolError": {"post": {"nothing_written": "len(events('tx')) == 0", "counter_unchanged": "self._packet_id == old(self._packet_id)"}},
+         raises={LAN + "ProtocolError": {"post": {"nothing_written": "len(events('tx')) == 0", "counter_unchanged": "self._packet_id == old(self._packet_id)"}, "emits": {"io": "'tx_refused'"}},
                  "builtins.TypeError": {"when": "packet_type != 6 and packet_type != 0",
                                         "post": {"nothing_written": "len(events('tx')) == 0", "counter_unchanged": "self._packet_id == old(self._packet_id)"}}},
          emits={"tx": "hs_request(old(self._packet_id), data) if packet_type == 0 else v3_data_packet(self, old(self._packet_id), data)",
@@ -438,7 +438,11 @@ contract(LANC + ".send",
               "was_v3": "isinstance(self._protocol, _LanProtocolV3)",
               "was_authenticated": "isinstance(self._protocol, _LanProtocolV3) and authenticated_spec(self._protocol)"},
          post_let={"PH": "events('phase')"},
-         raises={LAN + "ProtocolError": {"post": {"recoverable": "lan_inv(self)"}},
+         raises={LAN + "ProtocolError": {"post": {"recoverable": "lan_inv(self)",
+                                                  # C08: once connected and authenticated, the exchange fails with a protocol error only after the request was
+                                                  # handed to the transport (or the transport refused it): stale or malformed packets that arrived while idle
+                                                  # cannot keep the request from being transmitted
+                                                  "transmitted_before_a_protocol_error": "'drain' not in events('io') or 'tx' in events('io') or 'tx_refused' in events('io')"}},
                  "builtins.TimeoutError": {"post": {"recoverable": "lan_inv(self)"}},
                  "asyncio.CancelledError": {"post": {"recoverable": "lan_inv(self)"}}},
          ensures={"recoverable": "lan_inv(self)",
@@ -463,16 +467,18 @@ contract(LANC + ".send",
                   "c01.awaited_response_is_what_was_read": "len(events('frame_in')) == 1 and result[final('k0')] == events('frame_in')[0]",
                   "data_goes_out_on_the_current_connection": "all(same_object(t, self._protocol._transport) for t in events('tx_on'))"},
          local_roles={"packet": "assigned_from:_Packet.encode", "responses": "returned", "resp": "loop0.target"},
-         loops={"0": {"match": "_read_available", "havoc": {"responses": "list:bytes"},
+         loops={"0": {"match": "True", "havoc": {"responses": "list:bytes"}, "modifies": ["self._protocol._queue"],
+                      "invariant": ["lan_inv(self)", "self._protocol is not None", "implies(isinstance(self._protocol, _LanProtocolV3), self._protocol._local_key is not None)"]},
+                "1": {"match": "_read_available", "havoc": {"responses": "list:bytes"},
                       "step_ensures": {"keeps_exactly_the_frame_that_was_read": APPENDS_RESP}},
-                "1": {"match": "retries > 0", "ghost_init": {"n": "0", "k0": "len(responses)"}, "havoc": {"n": "int[0,8]", "k0": "int[0,1099511627776]", "responses": "list:bytes"},
+                "2": {"match": "retries > 0", "ghost_init": {"n": "0", "k0": "len(responses)"}, "havoc": {"n": "int[0,8]", "k0": "int[0,1099511627776]", "responses": "list:bytes"},
                       "modifies": ["self._protocol._packet_id", "self._protocol._queue"],
                       "invariant": ["n == old_retries - retries", "1 <= retries", "lan_inv(self)", "self._protocol is not None", "len(responses) == k0",
                                     "implies(isinstance(self._protocol, _LanProtocolV3), self._protocol._local_key is not None)"],
                       "ghost_step": {"n": "pre(n) + 1"},
                       "step_hints": {"one_transmission_per_iteration": "len(events('tx')) == pre(len(events('tx'))) + 1"},
                       "variant": "retries"},
-                "2": {"match": "_read_available", "havoc": {"responses": "list:bytes"}, "invariant": ["len(responses) >= 1", "len(responses) > k0", "responses[k0] == events('frame_in')[0]"],
+                "3": {"match": "_read_available", "havoc": {"responses": "list:bytes"}, "invariant": ["len(responses) >= 1", "len(responses) > k0", "responses[k0] == events('frame_in')[0]"],
                       "step_ensures": {"keeps_exactly_the_frame_that_was_read": APPENDS_RESP}}})
 
 
